@@ -122,7 +122,8 @@ def impl(case):
             second = ['RAISED', type(e).__name__]
         if second != out.get(str(i)):
             again.append([i, out.get(str(i)), second])
-    obs = {'construct': 'ok', 'matches': out, 'n': len(paths_of(case)), 'again': again[:5]}
+    obs = {'construct': 'ok', 'matches': out, 'n': len(paths_of(case)), 'again': again[:5],
+           'regex': br.regex.pattern, 'regex_flags': int(br.regex.flags)}
     # a sample through a real request: the endpoint receives the same values
     if case.get('request_sample'):
         from harness import wsgi
@@ -284,6 +285,100 @@ def model_matches(line):
     return out
 
 
+# ------------------------------------------------------------------ the assembled regex as a tree
+def rx_nf(t):
+    """normal form shared by both sides: concatenations flattened, empty words dropped"""
+    def flat(x):
+        if x[0] == 'cat':
+            out = []
+            for y in x[1:]:
+                out += flat(y)
+            return out
+        if x[0] == 'eps':
+            return []
+        if x[0] in ('alt',):
+            return [['alt'] + [rx_nf(y) for y in x[1:]]]
+        if x[0] == 'star':
+            return [['star', rx_nf(x[1])]]
+        return [x]
+    items = flat(t)
+    if not items:
+        return ['eps']
+    return items[0] if len(items) == 1 else ['cat'] + items
+
+
+def rx_tree(pat):
+    """Python's own parse of a regex source -> tree in the vocabulary of Base/Rx.v (fail-closed on anything else).
+    A whole-path match is '^' ... '\\Z'; a final '$' also admits a newline before the end and is kept visible."""
+    import re._parser as sp
+    import re._constants as sc
+
+    def cls(items):
+        neg, ranges = False, []
+        for op, av in items:
+            if op is sc.NEGATE:
+                neg = True
+            elif op is sc.LITERAL:
+                ranges.append([av, av])
+            elif op is sc.RANGE:
+                ranges.append([av[0], av[1]])
+            elif op is sc.CATEGORY and av is sc.CATEGORY_DIGIT:
+                ranges.append([48, 57])
+            else:
+                raise ValueError('character class item %s %s' % (op, av))
+        return ['cls', neg, ranges]
+
+    def seq(items):
+        return ['cat'] + [one(op, av) for op, av in items] if items else ['eps']
+
+    def one(op, av):
+        if op is sc.LITERAL:
+            return ['cls', False, [[av, av]]]
+        if op is sc.NOT_LITERAL:
+            return ['cls', True, [[av, av]]]
+        if op is sc.IN:
+            return cls(av)
+        if op is sc.MAX_REPEAT:
+            lo, hi, sub = av
+            body = seq(list(sub))
+            if (lo, hi) == (0, 1):
+                return ['alt', ['eps'], body]
+            if lo == 0 and hi is sc.MAXREPEAT:
+                return ['star', body]
+            if lo == 1 and hi is sc.MAXREPEAT:
+                return ['cat', body, ['star', body]]
+            raise ValueError('repeat {%s,%s}' % (lo, hi))
+        if op is sc.SUBPATTERN:
+            return seq(list(av[3]))
+        if op is sc.BRANCH:
+            alts = [seq(list(a)) for a in av[1]]
+            out = alts[-1]
+            for t in reversed(alts[:-1]):
+                out = ['alt', t, out]
+            return out
+        if op is sc.AT:
+            return ['at', str(av)]
+        raise ValueError('regex construct %s outside the modelled subset' % (op,))
+    items = list(sp.parse(pat))
+    if not items or items[0] != (sc.AT, sc.AT_BEGINNING):
+        raise ValueError('the regex does not start with ^')
+    if items[-1] == (sc.AT, sc.AT_END_STRING):
+        items = items[1:-1]
+    else:
+        items = items[1:]                      # whatever ends it stays in the tree and will differ from the model
+    return rx_nf(seq(items))
+
+
+def model_rx(x):
+    """parsed s-expression of Model/MatchIO.e_rx -> the same vocabulary"""
+    if isinstance(x, bytes):
+        return [x.decode()]
+    tag = x[0].decode()
+    if tag == 'cls':
+        return ['cls', x[1] == b'T', [[int(a), int(b)] for a, b in x[2]]]
+    return [tag] + [model_rx(y) for y in x[1:]]
+
+
 # ------------------------------------------------------------------ generation
 def gen_case(rng, tier, elems=None):
     els = all_elements()
@@ -300,7 +395,9 @@ def gen_case(rng, tier, elems=None):
     segpool = ['a', 'b', 'a-1', 'x_y', '1', '5', '15', '-5', '+1', ' 5', '+ 5', '1.5', '.5', '5.', '1e5', '1e+5', '-.5e-1',
                'e', '1e', '.', '-', '+', 'ab', 'é', '5a', ' ', '1 5', '0' * 30,
                # the same spellings in the other case: literal segments are case-sensitive, float exponents are not
-               'A', 'B', 'A-1', 'X_Y', '1E5', '1E+5', '-.5E-1', 'É']
+               'A', 'B', 'A-1', 'X_Y', '1E5', '1E+5', '-.5E-1', 'É',
+               # control characters arrive percent-decoded: a line break is a character like any other
+               'a\n', '5\n', '1.5\n', '\n', 'b\r\n', '\na']
     extra = []
     for _ in range(40):
         k = rng.randint(0, 8)
@@ -322,6 +419,8 @@ def gen_case(rng, tier, elems=None):
                 segs += [rng.choice(pool) for _ in range(cnt)]
         s = ''.join('/' * rng.choice([1, 1, 1, 1, 2]) + x for x in segs) + '/' * rng.choice([0, 1, 1, 2])
         extra.append(s)
+        if rng.random() < 0.3:
+            extra.append(s + '\n')            # the same path followed by a line break is another path
     if rng.random() < 0.05:
         extra.append('/' + '9' * 4301)
         extra.append('/' + '9' * 4300)
@@ -395,8 +494,10 @@ def run(rep, b, tier, seed, only_cases=None):
                 'InvalidPattern. non-trivial = (pattern, path) pairs that match.'
                 % ('120' if tier == 'quick' else '1500', ''.join(ALPHABET), 4 if tier == 'quick' else 5,
                    3 if tier == 'quick' else 4, ', '.join(INVALID_KINDS)))
-    rep.assumptions = ["Python's re engine: the regex assembled by _compile_path_pattern behaves like the token-level greedy "
-                       'matcher of Model/Match.v (validated here exhaustively on short paths, not proved)',
+    rep.assumptions = ["Python's re engine decides membership in the regular language of the expression it is given, for the subset "
+                       "used here (classes, concatenation, alternation, ? * +, groups, ^ and \\Z) - that language is proved to be the token "
+                       "matcher's acceptance (C05_regex_language); WHICH segments each group captures (greedy, leftmost) is compared, not proved",
+                       "Python's regex parser (re._parser) reads the pattern text the way the engine does",
                        "int()/float()/str() builtins: int rejects sign-space and > 4300 digits; float rejects sign-space",
                        r'\d is modelled as [0-9] (non-ASCII digits are outside the alphabet)',
                        'literal segments with regex metacharacters and malformed "<...>" parts are outside the quantifier (O1)']
@@ -415,6 +516,39 @@ def run(rep, b, tier, seed, only_cases=None):
             rep.broken('model matchlab is not executable: %s' % e)
     else:
         rep.broken('model matchlab is not executable (extraction or driver build failed)')
+    # the regular expression itself: Python's parse of BoundRoute.regex.pattern vs Model/RouteRx.route_rx (whose language
+    # is PROVED to be the token matcher's acceptance, Props/C05.C05_regex_language)
+    rx_idx = [i for i, (c, o) in enumerate(zip(cases, obs)) if c['lab'] == 'match' and isinstance(o, dict) and o.get('construct') == 'ok']
+    if b.driver_ok:
+        try:
+            rx_out = core.run_model(['routerx ' + sexp.dumps([cases[i]['pattern'], cases[i]['mode']]) for i in rx_idx])
+            nrx = 0
+            for i, line in zip(rx_idx, rx_out):
+                c, o = cases[i], obs[i]
+                t = sexp.loads(line)
+                problem = None
+                if not isinstance(t, list) or t[0] != b'ok':
+                    problem = 'the model rejects the pattern: %s' % line[:200]
+                elif t[2] != b'T':
+                    problem = 'pat_ok is false for a pattern the model accepts (the language theorem does not apply)'
+                else:
+                    try:
+                        want, got = rx_nf(model_rx(t[1])), rx_tree(o.get('regex') or '')
+                    except Exception as e:  # noqa
+                        want, got = 'model', 'unreadable: %s' % e
+                    if want != got:
+                        problem = 'the regex %r parses to %s, Model/RouteRx.route_rx is %s' % (o.get('regex'), json.dumps(got)[:600], json.dumps(want)[:600])
+                    elif o.get('regex_flags') != 32:
+                        problem = 'the regex %r is compiled with flags %s (expected re.UNICODE only: 32)' % (o.get('regex'), o.get('regex_flags'))
+                if problem:
+                    nrx += 1
+                    if nrx <= 3:
+                        rep.broken('correspondence routerx: pattern %r (%s): %s' % (c['pattern'], c['mode'], problem), {'case': dict(c, extra=[], L=0)})
+                else:
+                    rep.traces += 1
+                    rep.count('regex_trees_equal')
+        except Exception as e:  # noqa
+            rep.broken('model routerx is not executable: %s' % e)
     ndiff = 0
     pairs_total, pairs_match = 0, 0
     for i, (c, o) in enumerate(zip(cases, obs)):
